@@ -298,27 +298,29 @@ for_range_route! {
     fr_i32: i32, u32;
 }
 
-// ------------------------------------------------------------------ u8/i8 to exhaustion (thorough)
+// ------------------------------------------------------------------ u8 to exhaustion
 
-#[cfg(all(kani, feature = "thorough"))]
-mod exhaust {
-    use super::*;
-    #[kani::proof]
-    #[kani::unwind(258)]
-    pub fn u8_incl_to_exhaustion() {
-        let a: u8 = kani::any();
-        let b: u8 = kani::any();
-        let mut k = konst::iter::into_iter!(a..=b);
-        let mut s = a..=b;
-        loop {
-            match (k.copy().next(), s.next()) {
-                (None, None) => break,
-                (Some((x, rest)), Some(y)) => {
-                    assert!(x == y);
-                    k = rest;
-                }
-                _ => assert!(false),
+/// `a..=b` over u8 iterated to exhaustion from the front: quick = ranges of <= 8 items, thorough = every pair
+fn u8_incl_to_exhaustion<const MAXLEN: usize>() {
+    let a: u8 = kani::any();
+    let b: u8 = kani::any();
+    kani::assume(a > b || ((b - a) as usize) < MAXLEN);
+    let mut k = konst::iter::into_iter!(a..=b);
+    let mut s = a..=b;
+    let mut n = 0usize;
+    loop {
+        match (k.copy().next(), s.next()) {
+            (None, None) => break,
+            (Some((x, rest)), Some(y)) => {
+                assert!(x == y);
+                k = rest;
+                n += 1;
             }
+            _ => assert!(false),
         }
     }
+    must_reach!(n == MAXLEN && b == u8::MAX, "longest allowed range ending at MAX");
+    must_reach!(n == 0, "empty (inverted) range");
 }
+tiers! { u8_incl_to_exhaustion: unwind(11, 259), u8_incl_to_exhaustion::<8>(), u8_incl_to_exhaustion::<256>(),
+    calls("RangeInclusiveIter::<u8>::next"), bounds("every u8 pair with <=8 items, to exhaustion", "every u8 pair (all 65536), to exhaustion") }
